@@ -5,7 +5,7 @@
 (* path and a data object; the specification attaches the tree `Render`    *)
 (* says must be created.  One TLC run per family (CONSTANT Family).        *)
 (***************************************************************************)
-EXTENDS WxmlSem, Json
+EXTENDS WxmlSem, Json, Paths
 
 CONSTANT Family
 
@@ -231,8 +231,40 @@ F7 ==    {FileS(<<Elem("v", <<Attr("model:", "v", EV(e))>>, <<>>)>>) : e \in LAl
     \cup {FileS(<<For(EV(l), "item", "index", "", <<Elem("v", <<Attr(f, "tap", EV(e))>>, <<>>)>>)>>) :
              l \in {Mem(Id("m"), "list"), Id("l")}, f \in {"bind"}, e \in {Mem(Id("item"), "f"), Id("item"), Mem(Id("m"), "f")}}
 
+
 -----------------------------------------------------------------------------
-Cases == CASE Family = "F7" -> F7 [] Family = "F1" -> F1 [] Family = "F2" -> F2 [] Family = "F3" -> F3 [] Family = "F4" -> F4
+(* F8: multi-file groups (C13).  References are written relative to the referring file and resolved
+   by Paths!Resolve; `src` is the spelling the concretiser prints, `path`/imports the resolved key. *)
+Ref(cur, relSegs, abs, suffix) == [src |-> (IF abs THEN "/" ELSE "") \o JoinPath(relSegs) \o suffix, key |-> JoinPath(ResolvePath(cur, relSegs, abs))]
+IncludeR(r) == [t |-> "include", path |-> r.key, src |-> r.src]
+DefM(name, marker) == [n |-> name, ch |-> <<Text(<<S("<" \o marker \o ":"), P(Id("y")), S(">")>>)>>]
+GFile(segs, irefs, wxs, defs, root) == [path |-> JoinPath(segs), imports |-> [i \in 1..Len(irefs) |-> irefs[i].key],
+                                         importSrcs |-> [i \in 1..Len(irefs) |-> irefs[i].src], wxs |-> wxs, defs |-> defs, root |-> root]
+UseT == <<TmplIs(SV("t"), EV(Obj(<<Named("y", EA)>>))), TmplIs(SV("u"), EV(Obj(<<Named("y", EB)>>))), TmplIs(SV("nope"), None)>>
+MainSegs == <<"d", "a">>
+RefsTo(cur, target) ==      \* several spellings of a reference from `cur` to the file d/<target>
+    { Ref(cur, <<target>>, FALSE, ""), Ref(cur, <<".", target>>, FALSE, ".wxml"), Ref(cur, <<"d", target>>, TRUE, ""),
+      Ref(cur, <<"..", "d", target>>, FALSE, ""), Ref(cur, <<"x", "..", target>>, FALSE, ".wxml"), Ref(cur, <<"..", "..", "d", ".", target>>, TRUE, "") }
+F8imports ==
+    { << GFile(MainSegs, irefs, <<>>, IF mt THEN <<DefM("t", "main")>> ELSE <<>>, UseT),
+         GFile(<<"d", "b">>, <<>>, <<>>, (IF bt THEN <<DefM("t", "b")>> ELSE <<>>) \o <<DefM("u", "b")>>, <<Text(<<S("B")>>)>>),
+         GFile(<<"d", "c">>, <<>>, <<>>, (IF ct THEN <<DefM("t", "c")>> ELSE <<>>) \o <<DefM("u", "c")>>, <<Text(<<S("C")>>)>>) >> :
+        mt \in BOOLEAN, bt \in BOOLEAN, ct \in BOOLEAN,
+        irefs \in {<<>>} \cup {<<r>> : r \in RefsTo(MainSegs, "b")} \cup
+                  {<<r1, r2>> : r1 \in {Ref(MainSegs, <<"b">>, FALSE, ""), Ref(MainSegs, <<"..", "d", "b">>, FALSE, ".wxml")},
+                                r2 \in {Ref(MainSegs, <<"c">>, FALSE, ""), Ref(MainSegs, <<"d", "c">>, TRUE, "")}} \cup
+                  {<<Ref(MainSegs, <<"c">>, FALSE, ""), Ref(MainSegs, <<"b">>, FALSE, "")>>,
+                   <<Ref(MainSegs, <<"missing">>, FALSE, ""), Ref(MainSegs, <<"b">>, FALSE, "")>>} }
+F8includes ==
+    { << GFile(MainSegs, <<>>, <<>>, <<>>, <<Text(<<S("A")>>), IncludeR(r), Elem("v", <<>>, <<IncludeR(r2)>>)>>),
+         GFile(<<"d", "b">>, <<>>, <<>>, <<>>, <<Text(<<S("B"), P(EA)>>), IncludeR(Ref(<<"d", "b">>, <<"..", "g">>, FALSE, ""))>>),
+         GFile(<<"g">>, <<>>, <<>>, <<>>, <<Text(<<S("G"), P(EB)>>)>>) >> :
+        r \in RefsTo(MainSegs, "b"), r2 \in {Ref(MainSegs, <<"..", "g">>, FALSE, ""), Ref(MainSegs, <<"g">>, TRUE, ".wxml"),
+                                             Ref(MainSegs, <<"nowhere">>, FALSE, "")} }
+F8 == F8imports \cup F8includes
+
+-----------------------------------------------------------------------------
+Cases == CASE Family = "F8" -> F8 [] Family = "F7" -> F7 [] Family = "F1" -> F1 [] Family = "F2" -> F2 [] Family = "F3" -> F3 [] Family = "F4" -> F4
            [] Family = "F5" -> F5 [] Family = "F6" -> F6
 
 DataPool == IF Family = "F6" THEN {DS} ELSE IF Family = "F7" THEN {DL, DL2} ELSE Datas
@@ -242,7 +274,8 @@ Next == UNCHANGED vars
 Spec == Init /\ [][Next]_vars
 
 Group == [p \in {files[i].path : i \in 1..Len(files)} |-> CHOOSE f \in {files[i] : i \in 1..Len(files)} : f.path = p]
-Tree == RenderFile(Group, "a", data)
+MainPath == IF Family = "F8" THEN "d/a" ELSE "a"
+Tree == RenderFile(Group, MainPath, data)
 
 (* laws of the reference semantics, checked on every case *)
 (* comments never render *)
@@ -276,5 +309,5 @@ GetPutNodes(ns, env) == \A i \in 1..Len(ns) :
 GetPut == Family = "F7" => GetPutNodes(files[1].root, Env0(Group, "a", data))
 
 Emit == PrintT(<<"CASE", ToJson([files |-> files, data |-> data,
-                                  tree |-> IF Family = "F7" THEN RenderFileMarked(Group, "a", data) ELSE Tree])>>)
+                                  tree |-> IF Family = "F7" THEN RenderFileMarked(Group, "a", data) ELSE Tree, main |-> MainPath])>>)
 =============================================================================
